@@ -6,6 +6,7 @@ import FlVerif.Lemmas.TermSpecial
 import FlVerif.Lemmas.TermRange
 import FlVerif.Lemmas.Interp
 import FlVerif.Lemmas.TermMono
+import FlVerif.Lemmas.TermLimits
 
 /-! # C03 — Membership functions match their documented definitions
 
@@ -564,6 +565,35 @@ theorem at_sigmoid (i sl h : ℝ) : Mu.sigmoid F i sl h i = h / 2 := by
 theorem at_spike (c w h : ℝ) : Mu.spike F c w h c = h := by simp [Mu.spike, Fn.real]
 
 end real
+
+/-- the values assigned at `±inf` (`Spec.atPinf`, `Spec.atNinf`, returned by the code by `gen_eq_spec`) are the limits
+    of the documented closed form: `μ(x) → atPinf` as `x → +∞` and `μ(x) → atNinf` as `x → −∞`, for every class -/
+theorem limits (t : Term ℝ) (hv : t.Valid) :
+    Filter.Tendsto (mu Fn.real t) Filter.atTop (nhds (atPinf t)) ∧
+    Filter.Tendsto (mu Fn.real t) Filter.atBot (nhds (atNinf t)) := by
+  obtain ⟨hs, hh⟩ := hv
+  cases t with
+  | constant k => exact ⟨tendsto_const_nhds, tendsto_const_nhds⟩
+  | arc s e h => exact TermLimits.arc_limits s e h hs
+  | bell c w sl h => exact TermLimits.bell_limits c w sl h hs.1 hs.2
+  | binary s d h => exact TermLimits.binary_limits s d h hs
+  | concave i e h => exact TermLimits.concave_limits i e h hs
+  | cosine c w h => exact TermLimits.cosine_limits c w h
+  | discrete pts h => exact TermLimits.discrete_limits pts h hs
+  | gaussian m sd h => exact TermLimits.gaussian_limits m sd h hs
+  | gaussianProduct ma sa mb sb h => exact TermLimits.gaussianProduct_limits ma sa mb sb h hs.1 hs.2
+  | piShape a b c d h => exact TermLimits.piShape_limits a b c d h hs.1 hs.2
+  | ramp s e h => exact TermLimits.ramp_limits s e h hs
+  | rectangle s e h => exact TermLimits.rectangle_limits s e h
+  | semiEllipse s e h => exact TermLimits.semiEllipse_limits s e h
+  | sigmoid i sl h => exact TermLimits.sigmoid_limits i sl h hs
+  | sigmoidDifference l r f rt h => exact TermLimits.sigmoidDifference_limits l r f rt h hs.1 hs.2
+  | sigmoidProduct l r f rt h => exact TermLimits.sigmoidProduct_limits l r f rt h hs.1 hs.2
+  | spike c w h => exact TermLimits.spike_limits c w h hs
+  | sShape s e h => exact TermLimits.sShape_limits s e h hs
+  | trapezoid a b c d h => exact TermLimits.trapezoid_limits a b c d h hs.1 hs.2.1 hs.2.2
+  | triangle a b c h => exact TermLimits.triangle_limits a b c h hs.1 hs.2
+  | zShape s e h => exact TermLimits.zShape_limits s e h hs
 
 /-! ## 4. terms that declare themselves monotonic are monotone in x, in the direction of their parameters -/
 
